@@ -457,7 +457,7 @@ private:
     JSONCONS_VISITOR_RETURN_TYPE visit_uint64(uint64_t val, 
                       semantic_tag, 
                       const ser_context&,
-                      std::error_code&) final
+                      std::error_code& ec) final
     {
         if (val <= (std::numeric_limits<uint8_t>::max)())
         {
@@ -478,6 +478,12 @@ private:
         {
             sink_.push_back(jsoncons::ubjson::ubjson_type::int64_type);
             binary::native_to_big(static_cast<int64_t>(val),std::back_inserter(sink_));
+        }
+        else
+        {
+            // UBJSON has no unsigned 64-bit type: values above INT64_MAX cannot be written as an integer
+            ec = ubjson_errc::number_too_large;
+            JSONCONS_VISITOR_RETURN;
         }
         end_value();
         JSONCONS_VISITOR_RETURN;
